@@ -416,12 +416,12 @@ func l3Get(addr, target string) (status string, err error) {
 
 // l3Server returns the process' lal instance whose ServerManager.RunLoop serves HLS, HTTP-FLV and HTTP-TS on one
 // loopback address (with or without HLS sub-session mode), starting it if necessary.
-func l3Server(session bool) *l3Env {
+func l3Server(session bool) (*l3Env, *pbt.Violation) {
 	l3Mu.Lock()
 	defer l3Mu.Unlock()
 	if e := l3Cur[session]; e != nil && e.uses < 100 {
 		e.uses++
-		return e
+		return e, nil
 	}
 	if e := l3Cur[session]; e != nil {
 		e.s.Close()
@@ -454,6 +454,13 @@ func l3Server(session bool) *l3Env {
 				up = true
 				break
 			}
+			// the plainest possible request may already be what lal's handler cannot take
+			if logged := httpLog.take(); strings.Contains(logged, "http: panic serving") {
+				if fn := pbt.InnermostLalFrame(logged); fn != "" {
+					s.Close()
+					return nil, pbt.V("panic@"+fn, "net/http recovered a panic in lal's http handler (real listener) for GET /hls/c13-not-there.m3u8:\n%s", head(logged, 3000))
+				}
+			}
 			time.Sleep(2 * time.Millisecond)
 		}
 		if !up {
@@ -466,10 +473,10 @@ func l3Server(session bool) *l3Env {
 			fd.frames(30)
 		}
 		l3Cur[session] = e
-		return e
+		return e, nil
 	}
 	lalclient.Harness("c13: could not start lal's HTTP listener on loopback")
-	return nil
+	return nil, nil
 }
 
 func dropL3(session bool) {
@@ -487,7 +494,11 @@ func runL3(c HttpCase) *pbt.Violation {
 	if _, err := c.request(); err != nil {
 		return nil
 	}
-	e := l3Server(c.HlsSession)
+	httpLog.take()
+	e, v := l3Server(c.HlsSession)
+	if v != nil {
+		return v
+	}
 	httpLog.take()
 	conn, err := net.DialTimeout("tcp", e.addr, 10*time.Second)
 	if err != nil {
